@@ -25,6 +25,8 @@ def describe(ck):
     ck.rule("R05e", "a local pointer that is NULL-tested somewhere is not dereferenced on a path from a NULL definition without assignment or test")
     ck.rule("R05g", "no path in the call graph from an API function to exit/abort")
     ck.rule("R05i", "a local pointer published through an out-parameter is not released afterwards on any path without reassignment")
+    ck.rule("R05f", "the alphabets kalign_run selects (constructors evaluated at analysis time) have exactly id classes, all codes < the table sizes of the phase that uses them, and a code for the ambiguity letter")
+    ck.rule("R05l", "heap buffers allocated in a function hold every index / copy length used on them in that function (affine comparison; decided only when the symbolic parts cancel)")
     ck.rule("R05j", "loop-carried appends X->buf[X->count]; X->count++ test count against capacity before the next element access")
     ck.rule("R05k", "a local pointer that aliases storage owned by a struct field is not passed to a releaser while the owner still holds it")
     ck.not_decided += ["termination of all loops", "index safety inside the DP / bit-parallel kernels",
@@ -339,12 +341,16 @@ def run(ck, progs):
         r05g(ck, prog)
         n = r05i(ck, prog)
         ck.floor("R05i", n, 20, "out-parameter publications")
+        r05f(ck, prog)
+        n = r05l(ck, prog)
+        ck.floor("R05l", n, 120, "decided heap accesses")
         n = r05j(ck, prog)
         ck.floor("R05j", n, 12, "counted appends")
         n = r05k(ck, prog)
     from ..controls import run_control
     run_control(ck, ck.work, "R05j", "c05.c", lambda c, p: r05j(c, p, table=[("gbuf", ("items",), "n", "cap")]), "r05j")
     run_control(ck, ck.work, "R05k", "c05.c", r05k, "r05k")
+    run_control(ck, ck.work, "R05l", "c05.c", r05l, "r05l")
     run_control(ck, ck.work, "R05a", "c05.c", r05a, "r05a")
     run_control(ck, ck.work, "R05e", "c05.c", r05e, "r05e")
     run_control(ck, ck.work, "R05i", "c05.c", r05i, "r05i")
@@ -849,3 +855,229 @@ def r05j(ck, prog, functions=None, table=None):
                                      prog.config, path=[where, site(prog, u)])
                         break
     return n_inst
+
+
+# --------------------------------------------------------------------------- R05f
+def used_alphabets(prog):
+    """alphabet ids kalign_run hands to convert_msa_to_internal, split by phase (before/after the guide tree)"""
+    F = prog.fn("kalign_run")
+    cfg = F.cfg
+    tree = [cfg.position(c) for c in F.body.calls("build_tree_kmeans")]
+    if not tree:
+        raise AnalysisBroken("R05f slot: kalign_run does not call build_tree_kmeans")
+    phases = {"distance": [], "alignment": []}
+    for c in F.body.calls("convert_msa_to_internal"):
+        if len(c.args) < 2:
+            continue
+        a = c.args[1]
+        name = macro_of_const(a.strip(casts=True)) or macro_of_const(a)
+        if name is None or not name.startswith("ALPHA_"):
+            raise AnalysisBroken("R05f slot: alphabet argument %s of convert_msa_to_internal is not an ALPHA_* constant" % a.text())
+        after_tree = any(cfg.reaches(t, cfg.position(c)) for t in tree)
+        before_tree = any(cfg.reaches(cfg.position(c), t) for t in tree)
+        if before_tree:
+            phases["distance"].append((name, c))
+        if after_tree:
+            phases["alignment"].append((name, c))
+        elif not any(True for _ in F.body.calls("convert_msa_to_internal") if _ is not c and
+                     any(cfg.reaches(cfg.position(c), cfg.position(_)) for t in tree)):
+            pass
+    # an alphabet selected before the tree stays in force for the alignment unless replaced on that path
+    for name, c in phases["distance"]:
+        replaced = [d for n2, d in phases["alignment"] if cfg.reaches(cfg.position(c), cfg.position(d))]
+        # DNA is not converted again: it is also the alignment alphabet
+        guards_c = [g.text() for g, pol in guards(c) if "biotype" in g.text()]
+        same_branch = [d for d in replaced if any(gt in [g.text() for g, pol in guards(d)] for gt in guards_c)]
+        if not same_branch and (name, c) not in phases["alignment"]:
+            phases["alignment"].append((name, c))
+    return phases
+
+
+def r05f(ck, prog):
+    from ..consteval import alphabet_tables
+    tabs = alphabet_tables(prog)
+    phases = used_alphabets(prog)
+    sigma = prog.macro_int("SIGMA")
+    ap = prog.fn("aln_param_init")
+    dims = []
+    for c in ap.body.calls("malloc"):
+        if c.args and c.args[0].cv is not None:
+            sz = None
+            for x in c.args[0].walk():
+                if x.k == "UnaryExprOrTypeTraitExpr" and x.cv:
+                    sz = x.cv
+            if sz and "subm" in (c.up(casts=True)[0].text() if c.up(casts=True)[0] is not None else ""):
+                dims.append(c.args[0].cv // sz)
+    if len(dims) < 2:
+        raise AnalysisBroken("R05f slot: substitution-matrix allocation sizes not found in aln_param_init (%s)" % dims)
+    subm_dim = min(dims)
+    n = 0
+    for phase, lst in phases.items():
+        for name, call in lst:
+            t = tabs.get(name)
+            where = site(prog, call, "%s/%s" % (phase, name))
+            if t is None:
+                raise AnalysisBroken("R05f: alphabet %s not evaluated" % name)
+            n += 1
+            if t["error"]:
+                ck.inst("R05f", where, "%s: constructor evaluation: %s" % (name, t["error"]), prog.config)
+                ck.violation("R05f", "R05f/create_alphabet/%s" % name, where,
+                             "building alphabet %s %s" % (name, t["error"]), prog.config)
+                continue
+            codes = sorted({c for c in t["to_internal"] if c != -1})
+            limit = sigma if phase == "distance" else subm_dim
+            ck.inst("R05f", where, "%s phase uses %s: id %d, L %d, codes %d..%d, tables hold %d (%s)" % (
+                phase, name, t["id"], t["L"], codes[0], codes[-1], limit,
+                "SIGMA in bpm.c" if phase == "distance" else "subm rows/columns in aln_param_init"), prog.config)
+            if t["L"] != t["id"] or codes[-1] >= t["id"] or codes[0] < 0:
+                ck.violation("R05f", "R05f/create_alphabet/%s-size" % name, where,
+                             "alphabet %s is selected by its size %d but its constructor assigns %d classes (codes up to %d): "
+                             "a residue code indexes past the %d-entry tables sized for it" % (
+                                 name, t["id"], t["L"], codes[-1], t["id"]), prog.config)
+            if t["id"] > limit or codes[-1] >= limit:
+                ck.violation("R05f", "R05f/kalign_run/%s-%s" % (phase, name), where,
+                             "%s phase runs on alphabet %s (%d classes) but its tables have %d entries" % (
+                                 phase, name, t["id"], limit), prog.config)
+            amb = "N" if "DNA" in name else "X"
+            if t["to_internal"][ord(amb)] == -1:
+                ck.violation("R05f", "R05f/create_alphabet/%s-ambiguity" % name, where,
+                             "alphabet %s has no code for the ambiguity letter %s that unknown letters are mapped to" % (name, amb),
+                             prog.config)
+            # every upper-case letter the alphabet knows is mirrored to lower case (readers accept both)
+            for u in range(65, 91):
+                if t["to_internal"][u] != t["to_internal"][u + 32]:
+                    ck.violation("R05f", "R05f/create_alphabet/%s-case" % name, where,
+                                 "letter %s and %s have different codes in %s" % (chr(u), chr(u + 32), name), prog.config)
+                    break
+            missing = "".join(chr(u) for u in range(65, 91) if t["to_internal"][u] == -1)
+            ck.info("R05f", "%s has no class for letters %s (mapped to %s by convert_msa_to_internal)" % (name, missing or "-", amb))
+    ck.floor("R05f", n, 4, "(phase, alphabet) pairs")
+
+
+# --------------------------------------------------------------------------- R05l
+def r05l(ck, prog, functions=None):
+    """heap buffers allocated in a function vs. the indexes / copy lengths used on them in the same
+    function, compared as affine forms (decided only when the symbolic parts cancel)."""
+    from ..affine import lin, Lin, single_defs, induction_bound, alloc_sites
+    decided = undecided = 0
+    for F in (functions or prog.all_functions):
+        if "/tests/" in F.file:
+            continue
+        sites_ = list(alloc_sites(F))
+        if not sites_:
+            continue
+        subst = single_defs(F)
+        allocs = {}
+        for tgt, size, call in sites_:
+            L = lin(size, subst)
+            if L is None:
+                continue
+            szs = [x.cv for x in size.walk() if x.k == "UnaryExprOrTypeTraitExpr" and x.cv]
+            if len(set(szs)) == 1:
+                es = szs[0]
+            elif not szs and tgt.ty.replace("const ", "") in ("char *", "unsigned char *", "signed char *"):
+                es = 1
+            else:
+                continue
+            el = L.div(es)
+            if el is None:
+                continue
+            allocs.setdefault(tgt.text(), []).append((el, es, call, size))
+        for ttxt, lst in allocs.items():
+            # several allocations of the same lvalue (growth): use the smallest decided relation per access
+            for sub in F.body.find("ArraySubscriptExpr"):
+                if sub.kids[0].strip(casts=True).text() != ttxt:
+                    continue
+                idx = sub.kids[1]
+                li = lin(idx, subst)
+                if li is None:
+                    undecided += 1
+                    continue
+                # replace induction variables by their bounds
+                ub = Lin(li.c)
+                ok = True
+                for atom, coef in li.t.items():
+                    repl = None
+                    # enclosing loop
+                    for a in sub.ancestors():
+                        ib = induction_bound(a) if a.k == "ForStmt" else None
+                        if ib and ib[0].text() == atom:
+                            body = a.child("body")
+                            if ib[0].d["did"] in assigned_vars([body]):
+                                break
+                            B = lin(ib[2], subst)
+                            if B is not None and coef > 0:
+                                repl = B.add(Lin(-1)) if ib[1] == "<" else B
+                            break
+                    if repl is None:
+                        # after a loop over the same variable: earlier sibling for-statement
+                        c_ = sub
+                        p_ = sub.parent
+                        while p_ is not None and repl is None:
+                            if p_.k == "CompoundStmt":
+                                kids = p_.kids
+                                pos = next((i for i, s in enumerate(kids) if s is c_), None)
+                                if pos is not None:
+                                    for i in range(pos - 1, -1, -1):
+                                        s = kids[i]
+                                        ib = induction_bound(s) if s.k == "ForStmt" else None
+                                        if ib and ib[0].text() == atom:
+                                            if ib[0].d["did"] in assigned_vars(kids[i + 1:pos]) or \
+                                                    ib[0].d["did"] in assigned_vars([s.child("body")]):
+                                                break
+                                            B = lin(ib[2], subst)
+                                            if B is not None and coef > 0:
+                                                repl = B if ib[1] == "<" else B.add(Lin(1))
+                                            break
+                                        if s.k in ("ForStmt", "WhileStmt", "DoStmt", "IfStmt", "CompoundStmt") or True:
+                                            # any statement that assigns the variable ends the search
+                                            did = next((r.d["did"] for r in sub.refs(name=atom)), None)
+                                            if did is not None and did in assigned_vars([s]):
+                                                break
+                            c_, p_ = p_, p_.parent
+                    if repl is not None:
+                        ub = ub.add(repl, coef)
+                    else:
+                        ub = ub.add(Lin(0, {atom: 1}), coef)
+                where = site(prog, sub, sub.text()[:50])
+                best = None
+                for el, es, call, size in lst:
+                    diff = el.add(ub, -1).add(Lin(-1))
+                    if diff.is_const():
+                        best = diff.c if best is None else min(best, diff.c)
+                if best is None:
+                    undecided += 1
+                    continue
+                decided += 1
+                ck.inst("R05l", where, "%s: %s allocated with %s element(s); index at most %s" % (
+                    F.name, ttxt, " | ".join(repr(x[0]) for x in lst), repr(ub)), prog.config)
+                if best < 0:
+                    ck.violation("R05l", "R05l/%s/%s" % (F.name, re.sub(r"\s+", "", ttxt)), where,
+                                 "%s is allocated with %s element(s) but index %s can reach %s: %d element(s) past the end" % (
+                                     ttxt, repr(lst[0][0]), idx.text(), repr(ub), -best), prog.config)
+            for c in F.body.calls("memcpy", "memmove", "memset", "strncpy", "snprintf"):
+                if not c.args or c.args[0].strip(casts=True).text() != ttxt:
+                    continue
+                narg = c.args[1] if c.callee == "snprintf" else c.args[2]
+                ln = lin(narg, subst)
+                if ln is None:
+                    undecided += 1
+                    continue
+                best = None
+                for el, es, call, size in lst:
+                    diff = el.scale(es).add(ln, -1)
+                    if diff.is_const():
+                        best = diff.c if best is None else min(best, diff.c)
+                where = site(prog, c, "%s(%s)" % (c.callee, ttxt))
+                if best is None:
+                    undecided += 1
+                    continue
+                decided += 1
+                ck.inst("R05l", where, "%s: %s into %s of %s byte(s), length %s" % (
+                    F.name, c.callee, ttxt, repr(lst[0][0].scale(lst[0][1])), repr(ln)), prog.config)
+                if best < 0:
+                    ck.violation("R05l", "R05l/%s/%s-%s" % (F.name, c.callee, re.sub(r"\s+", "", ttxt)), where,
+                                 "%s writes %s byte(s) into %s, allocated with %s byte(s)" % (
+                                     c.callee, repr(ln), ttxt, repr(lst[0][0].scale(lst[0][1]))), prog.config)
+    ck.info("R05l", "%d heap accesses decided by affine comparison, %d left undecided (symbolic parts do not cancel)" % (decided, undecided))
+    return decided
